@@ -31,6 +31,7 @@ type zInput struct {
 	Base  string `json:"base"`
 	Pos   int    `json:"pos"`
 	Of    int    `json:"of,omitempty"` // denominator for pos (0 = the spec's Positions constant)
+	Blob  string `json:"blob,omitempty"` // class "fuzz": the encoded input itself
 }
 type zCfg struct {
 	SP string `json:"sp"`
@@ -278,6 +279,8 @@ func (Garbage) Run(c *orch.Case) *orch.Outcome {
 	var enc string
 	bases := garbageBases()
 	switch {
+	case in.Class == "fuzz":
+		enc = in.Blob
 	case strings.HasPrefix(in.Class, "sig_") || strings.HasPrefix(in.Class, "enc_"):
 		enc = structural(in.Class)
 	case in.Base != "" && in.Class != "" && isPositional(in.Class):
@@ -392,7 +395,7 @@ func (Garbage) Extra(tier string, seed int64) []orch.Case {
 		in, _ := json.Marshal(zInput{Entry: "decryptBytes", Class: "bitflip", Base: "ssoenc", Pos: off, Of: -1})
 		out = append(out, orch.Case{Src: "sweep", Cfg: json.RawMessage(`{"sp":"normal"}`), Input: in, Seed: seed})
 	}
-	return out
+	return append(out, fuzzCases(tier, seed)...)
 }
 
 func (Garbage) Corrupt(c *orch.Case, o *orch.Outcome) (any, string, bool) {
